@@ -267,3 +267,32 @@ def run(ck):
         bodies = [f] + prog.lambdas_in(f)
         touch = [e for g in bodies for e in g.events("member") if strip_tmpl(e.get("f") or "") in (T + "toWrite", T + "peers", T + "timers")]
         ck.ob("C09-R3", "asyncWrite/enqueue-only", not touch, f.loc, f, "no worker-owned table touched from the calling thread")
+
+    # ---------------- R7: response objects do not own the connection ----------------
+    ck.rule("C09-R7", "I ownership (type-level)",
+            "ResponseWriter, ResponseStream and Timeout may be parked and used on another thread long after the request: they refer to "
+            "the connection's Peer through std::weak_ptr, and ResponseWriter/ResponseStream::peer() throws when it has expired -- so a late "
+            "answer for a connection the worker has released is refused instead of being written to a descriptor number that may already "
+            "belong to another client", 4)
+    for cname in ("ResponseWriter", "ResponseStream", "Timeout"):
+        c_ = prog.cls("Pistache::Http::" + cname)
+        pf = [x for x in c_["fields"] if "Peer" in (x.get("ctype") or x["type"])]
+        ck.require(pf, "no field of %s refers to the connection's Peer" % cname)
+        for x in pf:
+            ty = (x.get("ctype") or x["type"]).replace(" ", "")
+            ck.ob("C09-R7", "type:%s::%s" % (cname, x["name"]), ty.startswith("std::weak_ptr<"), "%s:%s" % (c_["file"], x.get("line") or 0), "",
+                  "declared %s" % x["type"] if ty.startswith("std::weak_ptr<") else
+                  "declared %s: the object keeps the Peer (and its descriptor number) alive after the worker released the connection, and the "
+                  "expired-peer test of peer() can no longer refuse a late write" % x["type"], nontrivial=False)
+    for fn_ in prog.find("Pistache::Http::ResponseWriter::peer", 1) + prog.find("Pistache::Http::ResponseStream::peer", 1):
+        lk = [e for e in fn_.calls(lambda e: e.base_callee() in ("std::weak_ptr::lock", "std::__weak_ptr::lock"))]
+        th = [e for e in fn_.events("throw")]
+        ck.ob("C09-R7", "%s/throws-when-expired" % fn_.base.replace("Pistache::Http::", ""), bool(lk) and bool(th), fn_.loc, fn_,
+              "lock() of the weak reference, throw when the peer is gone")
+
+    # ---------------- facts shared with C13 ----------------
+    ck.borrow("C13", ["C13-R1", "C13-R2", "C13-R3"], "C09-R6",
+              "responses and peers handed to a worker from another thread are all taken: the eventfd is drained before each pop, so the "
+              "consumer must keep popping until the queue is empty -- a consumer that stops earlier leaves entries behind with their wake-up "
+              "already consumed",
+              key_pred=lambda k: "Tcp::Transport" in k or k in ("Queue::push", "PollableQueue::push", "PollableQueue::pop"), min_instances=6)
